@@ -57,6 +57,16 @@ template <class F> static int vg_run(unsigned secs, F body) {
     alarm(0); return s;
 }
 
+// the same with a watchdog in milliseconds (for calls that take microseconds when they terminate: many hanging inputs must not exhaust the driver's own time limit)
+#include <sys/time.h>
+template <class F> static int vg_run_ms(unsigned ms, F body) {
+    vg_asan_hits = 0; vg_asan_first.clear();
+    struct itimerval on = {{0, 0}, {(time_t)(ms / 1000), (suseconds_t)((ms % 1000) * 1000)}}, off = {{0, 0}, {0, 0}};
+    int s = sigsetjmp(vg_jmp, 1);
+    if (s == 0) { vg_armed = 1; setitimer(ITIMER_REAL, &on, nullptr); body(); setitimer(ITIMER_REAL, &off, nullptr); vg_armed = 0; return 0; }
+    setitimer(ITIMER_REAL, &off, nullptr); return s;
+}
+
 // Allocate n bytes flush against the end of a heap block so that the first byte
 // past the data is poisoned (n = 0 gives a pointer to the end of a block).
 struct FlushBuf {
